@@ -110,12 +110,13 @@ func (c *RepoCacheBug) ResolveComment(prefix string) (*BugCache, entity.Combined
 
 // Query return the id of all Bug matching the given Query
 func (c *RepoCacheBug) Query(q *query.Query) ([]entity.Id, error) {
-	c.mu.RLock()
-	defer c.mu.RUnlock()
-
 	if q == nil {
+		// AllIds takes the lock by itself
 		return c.AllIds(), nil
 	}
+
+	c.mu.RLock()
+	defer c.mu.RUnlock()
 
 	matcher := compileMatcher(q.Filters)
 
